@@ -1,6 +1,6 @@
 """C02 (gate part): HS <-> Choi conversions and their alternative implementations."""
 from qverif.symtwin.verify import E2Contract, eq, true
-from ._cfg import make_csys, DIMS
+from ._cfg import make_csys, DIMS, split_layout, as_layout
 
 G = "quara.objects.gate"
 
@@ -11,11 +11,13 @@ class ChoiFromHs(E2Contract):
     targets = (G + ":to_choi_from_hs", G + ":to_choi_from_hs_with_dict", G + ":to_choi_from_hs_with_sparsity")
 
     def configs(self, tier):
-        return ["1q", "1qt"] + (["2q"] if tier == "thorough" else [])
+        # "/F": the same arbitrary matrix handed over as a transposed view (Fortran memory order) - array semantics do not depend on layout
+        return ["1q", "1qt", "1q/F", "1qt/F"] + (["2q", "2q/F"] if tier == "thorough" else [])
 
     def inputs(self, W, cfg, mk):
-        n = DIMS[cfg] ** 2
-        return dict(c_sys=make_csys(W, cfg), hs=mk.array("hs", (n, n)))
+        name, layout = split_layout(cfg)
+        n = DIMS[name] ** 2
+        return dict(c_sys=make_csys(W, name), hs=as_layout(mk.array("hs", (n, n)), layout))
 
     def run(self, W, cfg, inp):
         g = W.mod(G)
@@ -40,14 +42,18 @@ class HsFromChoi(E2Contract):
     targets = (G + ":to_hs_from_choi", G + ":to_hs_from_choi_with_dict", G + ":to_hs_from_choi_with_sparsity")
 
     def configs(self, tier):
-        return ["1q", "1qt"] + (["2q"] if tier == "thorough" else [])
+        return ["1q", "1qt", "1q/F"] + (["2q", "1qt/F"] if tier == "thorough" else [])
 
     def inputs(self, W, cfg, mk):
         # domain: Choi matrices of Hermiticity-preserving maps = images of real HS matrices
-        n = DIMS[cfg] ** 2
-        c_sys = make_csys(W, cfg)
+        name, layout = split_layout(cfg)
+        n = DIMS[name] ** 2
+        c_sys = make_csys(W, name)
         hs = mk.array("hs", (n, n))
-        return dict(c_sys=c_sys, hs=hs, choi=W.S.choi_from_hs(c_sys, hs))
+        choi = W.S.choi_from_hs(c_sys, hs)
+        if layout:
+            choi = choi.T.copy().T          # same matrix, Fortran memory order
+        return dict(c_sys=c_sys, hs=hs, choi=choi)
 
     def run(self, W, cfg, inp):
         g = W.mod(G)
@@ -68,16 +74,20 @@ class HsFromChoiTruncating(E2Contract):
                "quara.utils.matrix_util:truncate_imaginary_part", "quara.utils.matrix_util:truncate_computational_fluctuation")
 
     def configs(self, tier):
-        return ["1q", "1qt"] + (["2q"] if tier == "thorough" else [])
+        return ["1q", "1qt", "1q/F"] + (["2q", "1qt/F"] if tier == "thorough" else [])
 
     def inputs(self, W, cfg, mk):
-        n = DIMS[cfg] ** 2
-        c_sys = make_csys(W, cfg)
+        name, layout = split_layout(cfg)
+        n = DIMS[name] ** 2
+        c_sys = make_csys(W, name)
         hs = mk.array("hs", (n, n))
         eps = mk.real("eps")
         mk.require(eps > 0)
         mk.require(eps <= 1e-2)
-        return dict(c_sys=c_sys, hs=hs, choi=W.S.choi_from_hs(c_sys, hs), eps=eps)
+        choi = W.S.choi_from_hs(c_sys, hs)
+        if layout:
+            choi = choi.T.copy().T          # same matrix, Fortran memory order
+        return dict(c_sys=c_sys, hs=hs, choi=choi, eps=eps)
 
     def sample(self, cfg, names, rng):
         vals = {n: rng.uniform(-1.5, 1.5) for n in names}
